@@ -2,6 +2,7 @@ package gen
 
 import (
 	"encoding/json"
+	"fmt"
 	"math/big"
 	"math/rand/v2"
 	"strconv"
@@ -683,7 +684,23 @@ func Respell(r *rand.Rand, v any) any {
 			return json.Number(Pick(r, []string{"0", "-0", "0.0", "-0.0", "0e0", "-0e1"}))
 		}
 		if rt.IsInt() && rt.Num().BitLen() < 50 {
-			return json.Number(rt.Num().String() + Pick(r, []string{".0", "e0", ".00", "0e-1"}))
+			return json.Number(rt.Num().String() + Pick(r, []string{".0", "e0", ".00", "0e-1", "E0", "00E-2", "0E-1", "E+0"}))
+		}
+		if num, k, ok := decimalParts(rt); ok && k > 0 {
+			// a fraction without a decimal point (5E-1), with a shifted exponent (50e-2) or with trailing zeros (0.50)
+			switch r.IntN(4) {
+			case 0:
+				return json.Number(fmt.Sprintf("%sE-%d", num, k))
+			case 1:
+				return json.Number(fmt.Sprintf("%se-%d", num, k))
+			case 2:
+				return json.Number(fmt.Sprintf("%s0e-%d", num, k+1))
+			default:
+				if strings.Contains(string(x), ".") && !strings.ContainsAny(string(x), "eE") {
+					return json.Number(string(x) + "0") // (only a plain decimal can take a trailing zero)
+				}
+				return json.Number(fmt.Sprintf("%sE-%d", num, k))
+			}
 		}
 		return x
 	case []any:
